@@ -18,7 +18,7 @@ class C10(Check):
     PID = 'C10'
     RULE = ('seeded random past-time (and pastified bounded-future) specifications, with and without sub-specifications; a history of 0..40 updates '
             '(jittered time-stamps), reset(), then a continuation; every post-reset output and the sampling-violation counter are compared with a freshly '
-            'constructed monitor fed the continuation only, and with the model; reset() before the first update; further reset() calls inside the history (35% of the cases); updates that omit a variable; '
+            'constructed monitor fed the continuation only, and with the model; reset() before the first update; further reset() calls inside the history (35% of the cases); updates that omit a variable; the sampling period configured after the reset (bounds in seconds); '
             'non-trivial = stateful formula and history length >= 1; distinct by (formula, history, continuation)')
 
     def gen_cases(self, rng, tier):
@@ -66,6 +66,12 @@ class C10(Check):
             # earlier reset() calls inside the history (a monitor can be reset any number of times)
             resets = sorted(rng.sample(range(0, h + 1), min(h + 1, rng.choice([1, 1, 2])))) if rng.random() < 0.35 else []
             cases.append({'f': f, 'n': n, 'h': h, 'nv': nv, 'cols': cols, 'times': times, 'omit': omit, 'sub': sub, 'resets': resets, 'past': past})
+            if not past and (fml.ops(f) & (fml.TUN | fml.TBIN)) and rng.random() < 0.5:
+                # the sampling period is configured after the reset (before the first update of the fresh monitor): bounds are written in seconds,
+                # the history runs with the default period of 1 s, the continuation with 500 ms
+                c2 = dict(cases[-1], reperiod=[500, 'ms', 0.1], omit=[], sub=False)
+                c2['times'] = c2['times'][:h] + [0.5 * i for i in range(n - h)]
+                cases.append(c2)
         return cases
 
     def _spec(self, c):
@@ -75,6 +81,8 @@ class C10(Check):
             # name the first child as a sub-specification
             text = fml.to_text(fml.rebuild(f, [('ref', 'sub1')] + fml.children(f)[1:]))
             return {'subspecs': ['sub1 = ' + fml.to_text(kid) + ';'], 'spec': 'out = ' + text}
+        if c.get('reperiod'):
+            return {'spec': 'out = ' + fml.to_text(f, lambda b, e: '[%ds,%ds]' % (b, e))}
         return {'spec': 'out = ' + fml.to_text(f)}
 
     def impl_cases(self, c):
@@ -90,9 +98,10 @@ class C10(Check):
             hist += updates(c['f'], c['cols'], c['times'], lo, r) + [['reset']]
             lo = r
         hist += updates(c['f'], c['cols'], c['times'], lo, h)
-        a['calls'] = hist + [['reset']] + updates(c['f'], c['cols'], c['times'], h, n, om) + [['counter']]
+        rp = [['set_period'] + c['reperiod']] if c.get('reperiod') else []
+        a['calls'] = hist + [['reset']] + rp + updates(c['f'], c['cols'], c['times'], h, n, om) + [['counter']]
         b = dict(base)
-        b['calls'] = updates(c['f'], c['cols'], c['times'], h, n, om) + [['counter']]
+        b['calls'] = rp + updates(c['f'], c['cols'], c['times'], h, n, om) + [['counter']]
         return [a, b]
 
     def model_lines(self, c):
@@ -129,9 +138,11 @@ class C10(Check):
         nres = len([x for x in c.get('resets', []) if x <= h])
         post = [r['value'] for r in a['calls'][h + nres + 1:]]
         fresh = [r['value'] for r in b['calls']]
+        if c.get('reperiod'):
+            det['sampling_period_set_after_reset'] = c['reperiod']
         if post != fresh:
             return 'violation', dict(det, expected={'fresh monitor (outputs..., counter)': fresh}, observed={'after reset': post})
-        if not c.get('omit') and not c.get('past'):
+        if not c.get('omit') and not c.get('past') and not c.get('reperiod'):
             mo = json.loads(json.dumps(expect_vals([fml.parse_val(x) for x in m1['ON']])))
             mf = json.loads(json.dumps(expect_vals([fml.parse_val(x) for x in m2['ON']])))
             if mo != mf:
@@ -144,10 +155,10 @@ class C10(Check):
         return c['h'] >= 1 and bool(fml.ops(c['f']) & {'evt', 'alwt', 'untilt', 'next', 'snext', 'prev', 'sprev', 'once', 'hist', 'since', 'oncet', 'histt', 'sincet', 'rise', 'fall'})
 
     def key(self, c):
-        return json.dumps([fml.to_sx(c['f']), c['cols'], c['h'], c.get('omit'), c.get('sub'), c.get('resets'), c.get('past')])
+        return json.dumps([fml.to_sx(c['f']), c['cols'], c['h'], c.get('omit'), c.get('sub'), c.get('resets'), c.get('past'), c.get('reperiod')])
 
     def features(self, c):
-        return Check.features(self, c) + (['pastified'] if c.get('past') else []) + (['sub-specification'] if c.get('sub') else [])
+        return Check.features(self, c) + (['pastified'] if c.get('past') else []) + (['sub-specification'] if c.get('sub') else []) + (['period_set_after_reset'] if c.get('reperiod') else [])
 
     def describe(self, c):
         return {'spec': self._spec(c), 'history': c['h'], 'continuation': c['n'] - c['h'], 'data': c['cols'], 'time': c['times'], 'omitted': c.get('omit')}
